@@ -3,7 +3,7 @@
    comparison of the generated index maps with the model's. *)
 From Coq Require Import List Arith Bool ZArith QArith Lia.
 Import ListNotations.
-Require Import Model.C12_Refine Model.C12_Geom Proofs.C12_RefineProofs Proofs.C12_GeomProofs Proofs.C12_BoundaryProofs Gen.C12Gen.
+Require Import Model.C12_Refine Model.C12_Geom Model.C13_Adaptive Proofs.C12_RefineProofs Proofs.C12_GeomProofs Proofs.C12_BoundaryProofs Gen.C12Gen.
 Local Open Scope nat_scope.
 
 (* ------------------------------------------------------------------ counts: 2^d children *)
@@ -225,3 +225,11 @@ Proof.
   destruct j as [|[|[|j]]]; try lia; unfold child; cbn [gen_tri_templates nth map resolve]; rewrite Hv, Hf; cbn [nth];
     apply sort_nat_sorted3; lia.
 Qed.
+
+(* ------------------------------------------------------------------ local conformity of the 2-D templates *)
+(* the child edges are: the two halves of every parent facet (each once, cut at the facet's own node) and interior
+   edges shared by exactly two children *)
+Lemma tri_trace_ok : trace_ok gen_tri_rfacets [true; true; true] gen_tri_templates = true.
+Proof. vm_compute. reflexivity. Qed.
+Lemma quad_trace_ok : trace_ok gen_quad_rfacets [true; true; true; true] gen_quad_templates = true.
+Proof. vm_compute. reflexivity. Qed.
